@@ -145,6 +145,31 @@ pub fn p_sink() -> Profile {
     }
 }
 
+/// "Real lexer" alphabet: the end points of the classes people actually write (digits, hex,
+/// upper/lower case, underscore, punctuation after 'z', Latin-1 letters), so that pieces like
+/// 0-9, A-F, A-Z, a-f, a-z and their neighbours occur, with sets of up to five items.
+pub fn p_real() -> Profile {
+    let mut re = ReParams::basic(&['0', '9', 'A', 'F', 'Z', '_', 'a', 'f', 'z', '{', '~', '\u{c0}', '\u{ff}', ' ']);
+    re.w_set = 14;
+    re.w_char = 6;
+    re.w_str = 2;
+    re.w_any = 1;
+    re.w_diff = 2;
+    re.size = 7;
+    re.max_set_items = 5;
+    Profile {
+        name: "real",
+        re,
+        sets: (1, 2),
+        rules: (1, 4),
+        ctx_pct: 15,
+        eoi_pct: 5,
+        kinds: KindMix::tokens_only(),
+        unnamed_pct: 40,
+        allow_empty_sets: false,
+    }
+}
+
 pub fn sink_adjust(spec: &mut Spec, r: &mut TestRunner) {
     let t = sample(&gen::tape_strategy(80), r);
     let sel = t.first().copied().unwrap_or(0);
@@ -293,7 +318,7 @@ impl Prop for C01 {
         Some("C01")
     }
     fn profiles(&self, tier: Tier) -> Vec<(Profile, usize)> {
-        vec![(p_rewind(), tier.pick(320, 4000)), (p_ctx(), tier.pick(80, 1000)), (p_sink(), tier.pick(60, 800))]
+        vec![(p_rewind(), tier.pick(320, 4000)), (p_ctx(), tier.pick(80, 1000)), (p_sink(), tier.pick(60, 800)), (p_real(), tier.pick(80, 1000))]
     }
     fn custom_specs(&self, tier: Tier, r: &mut TestRunner) -> Vec<(&'static str, Spec)> {
         // very long literals (chains of 30-60 single-predecessor states) next to ordinary rules
@@ -514,6 +539,16 @@ impl Prop for C04 {
         } else if sel % 3 == 1 && spec.named() {
             // every context is a rule-set-local variable c0, c1, …
             gen::local_ctx_lets(&mut spec);
+        }
+        if sel % 7 == 3 {
+            // a delimiter list: ten or more individually listed characters (or end of input)
+            let many = gen::many_char_set(t.get(1..).unwrap_or(&[]), 10 + (sel as usize / 7) % 6);
+            for rule in spec.rules_mut() {
+                if rule.ctx.is_some() {
+                    rule.ctx = Some(if sel % 2 == 0 { many.clone() } else { oracle::re::alt(many.clone(), oracle::re::Re::Eoi) });
+                    break;
+                }
+            }
         }
         spec
     }
@@ -782,7 +817,7 @@ impl Prop for C07 {
         d.re.w_any = 3;
         d.re.w_set = 5;
         d.kinds.fscript = 4;
-        vec![(f, tier.pick(200, 2500)), (c, tier.pick(80, 1200)), (d, tier.pick(60, 800)), (p_sink(), tier.pick(60, 800))]
+        vec![(f, tier.pick(200, 2500)), (c, tier.pick(80, 1200)), (d, tier.pick(60, 800)), (p_sink(), tier.pick(60, 800)), (p_real(), tier.pick(60, 800))]
     }
     fn cases(&self, ctx: &SpecCtx, _c: &mut Compiled, r: &mut TestRunner, tier: Tier) -> Vec<Case> {
         cases_from(ctx, r, &std_plan(tier, true))
@@ -893,6 +928,7 @@ impl Prop for C09 {
             (p_unicode(), n),
             (p_actions(), n),
             (p_sink(), n),
+            (p_real(), n),
         ]
     }
     fn cases(&self, ctx: &SpecCtx, _c: &mut Compiled, r: &mut TestRunner, tier: Tier) -> Vec<Case> {
@@ -1000,7 +1036,7 @@ impl Prop for C10 {
         acc.kinds.skip = 3;
         acc.kinds.rcont = 3;
         acc.sets = (1, 2);
-        vec![(p_actions(), tier.pick(200, 2500)), (acc, tier.pick(140, 1500)), (p_sink(), tier.pick(60, 800))]
+        vec![(p_actions(), tier.pick(200, 2500)), (acc, tier.pick(140, 1500)), (p_sink(), tier.pick(60, 800)), (p_real(), tier.pick(60, 800))]
     }
     fn cases(&self, ctx: &SpecCtx, _c: &mut Compiled, r: &mut TestRunner, tier: Tier) -> Vec<Case> {
         cases_from(ctx, r, &std_plan(tier, true))
